@@ -222,9 +222,9 @@ def _entry_calls(repo):
 # ------------------------------------------------------------------------------------------------
 # who consumes an `Error` that may come out of a nested evaluation, and what happens to it
 _CONS_PAT = re.compile(r"\.map_err\(|\.ok\(\)|\.unwrap_or(?:_else|_default)?\(|\bif let Err\(|\bErr\(_\)|\.is_err\(\)"
-                       r"|\bErr\((?:mut )?\w+\)\s*(?:if[^=]*?)?=>|\.or_else\(")
+                       r"|\bErr\((?:mut )?\w+\)\s*(?:if[^=]*?)?=>|\.or_else\(|\.map_or(?:_else)?\(|\bif let Ok\(|\.or\(|\.is_ok_and\(|\.is_err_and\(")
 _ADAPT = {"map", "and_then", "ok_or_else", "ok_or", "as_ref", "as_mut", "cloned", "into_iter", "iter", "transpose", "flatten",
-          "filter", "filter_map", "copied", "map_or", "then", "borrow_mut", "borrow", "lock", "unwrap", "clone", "into_inner"}
+          "filter", "filter_map", "copied", "then", "borrow_mut", "borrow", "lock", "unwrap", "clone", "into_inner"}
 # a call that receives the State (or is a method of it) can run the VM; so can the functions that start an evaluation
 _STATE_ARG = re.compile(r"(?:^|[(,])\s*(?:&mut\s+)?\*?(?:state|self)\s*(?:$|[,)])")
 _EVAL_CALLEES = {"_capture_state", "_capture_state_with_output", "_eval", "_render", "render", "render_captured", "render_captured_to",
@@ -346,11 +346,11 @@ def _err_consumers(repo):
             fns = list(re.finditer(r"\bfn\s+(\w+)", src[:m.start()]))
             fn_name, fn_start = (fns[-1].group(1), fns[-1].start()) if fns else ("<top>", 0)
             pat = m.group(0)
-            if pat.startswith("if let Err("):
+            if pat.startswith("if let Err(") or pat.startswith("if let Ok("):
                 e = src.find("{", m.end())
                 ch = _chain(src, e)
                 body = src[e:_match_fwd(src, e) + 1]
-                how = "if let Err"
+                how = "if let Err" if pat.startswith("if let Err(") else "if let Ok"
             elif pat.startswith("Err("):
                 ms = list(re.finditer(r"\bmatch\s", src[:m.start()]))
                 ch = []
@@ -389,7 +389,10 @@ def _err_consumers(repo):
                 disp = "propagates original"
             elif "Error::new(" in body or "Error::from(" in body:
                 disp = "REPLACES original"
-            elif how in ("ok()", "unwrap_or", "unwrap_or_else", "unwrap_or_default", "is_err()", "match arm Err(_)", "or_else"):
+            elif how == "if let Ok" and re.search(r"\}\s*else\s*\{[^}]*(?:return Err\(\w+\)|Err\(\w+\))", src[e:_match_fwd(src, e) + 200]):
+                disp = "propagates original"
+            elif how in ("ok()", "unwrap_or", "unwrap_or_else", "unwrap_or_default", "is_err()", "match arm Err(_)", "or_else", "map_or", "map_or_else",
+                         "is_ok()", "if let Ok", "or", "is_ok_and", "is_err_and"):
                 disp = "SWALLOWS original"
             else:
                 disp = "other"
@@ -399,3 +402,223 @@ def _err_consumers(repo):
             + ",\n  ".join("(" + ", ".join(lean_str(x) for x in row) + ")" for row in rows) + "]\n"
             + f"def fuelErrConsumersNoVm : Nat := {n_novm}")
     return {"rows": rows, "no_vm": n_novm}, lean
+
+
+# ------------------------------------------------------------------------------------------------
+# TOTAL cost table: the Instruction enum (every variant with its #[cfg]) and the arms of
+# fuel_for_instruction with their #[cfg]s
+def _cfg_of(attrs, where):
+    """'' or the feature name of the single #[cfg(feature = "x")] among the attributes"""
+    feats = []
+    for a in attrs:
+        if not a.startswith("cfg"):
+            continue  # doc, allow, serde attributes ...
+        m = re.fullmatch(r'cfg\(\s*feature\s*=\s*"(\w+)"\s*\)', a)
+        if not m:
+            raise KeyError(f"{where}: a #[cfg] that is not a single feature test: #[{a}]")
+        feats.append(m.group(1))
+    if len(feats) > 1:
+        raise KeyError(f"{where}: more than one #[cfg]")
+    return feats[0] if feats else ""
+
+
+def _split_top(s, sep=","):
+    out, depth, cur = [], 0, ""
+    for c in s:
+        if c in "([{<":
+            depth += 1
+        elif c in ")]}>":
+            depth -= 1
+        if c == sep and depth == 0:
+            out.append(cur)
+            cur = ""
+        else:
+            cur += c
+    if cur.strip():
+        out.append(cur)
+    return out
+
+
+@item("C13_INSTR_VARIANTS")
+def _instr_variants(repo):
+    src = _strip_comments(read(repo, "minijinja/src/compiler/instructions.rs"))
+    body = fn_body(src, r"pub enum Instruction\s*<[^>]*>\s*\{")
+    rows = []
+    for part in _split_top(body):
+        part = part.strip()
+        if not part:
+            continue
+        attrs = re.findall(r"#\[((?:[^\[\]]|\[[^\]]*\])*)\]", part)
+        rest = re.sub(r"#\[(?:[^\[\]]|\[[^\]]*\])*\]", "", part).strip()
+        m = re.match(r"(\w+)", rest)
+        if not m:
+            raise KeyError(f"Instruction enum: cannot read variant `{part[:40]}`")
+        rows.append((m.group(1), _cfg_of([a.strip() for a in attrs], "Instruction::" + m.group(1))))
+    if len(rows) < 40:
+        raise KeyError("Instruction enum: fewer than 40 variants found")
+    lean = ("def instrVariants : List (String × String) := ["
+            + ", ".join(f"({lean_str(n)}, {lean_str(c)})" for n, c in rows) + "]")
+    return rows, lean
+
+
+@item("C13_FUEL_ARMS")
+def _fuel_arms(repo):
+    src = read(repo, "minijinja/src/vm/fuel.rs")
+    body = fn_body(src, r"fn fuel_for_instruction\(\s*\w+\s*:\s*&Instruction(?:<[^>]*>)?\s*\)\s*->\s*\w+\s*\{")
+    inner = re.sub(r"//.*", "", fn_body(body, r"match\s+\w+\s*\{"))
+    rows, pos = [], 0
+    for m in re.finditer(r"=>\s*([^,]+?)\s*,", inner):
+        pat = inner[pos:m.start()]
+        pos = m.end()
+        val = m.group(1).strip()
+        if not re.fullmatch(r"\d+", val):
+            raise KeyError(f"fuel arm with a non-literal cost: `{val}`")
+        attrs = [a.strip() for a in re.findall(r"#\[((?:[^\[\]]|\[[^\]]*\])*)\]", pat)]
+        cfg = _cfg_of(attrs, "fuel arm")
+        pat = re.sub(r"#\[(?:[^\[\]]|\[[^\]]*\])*\]", "", pat).strip()
+        if " if " in pat:
+            raise KeyError("fuel arm with a guard")
+        if pat == "_":
+            continue
+        for a in [a.strip() for a in pat.split("|") if a.strip()]:
+            mm = re.fullmatch(r"Instruction::(\w+)(?:\s*\((?:\s*(?:_|\.\.)\s*,?)*\)|\s*\{\s*\.\.\s*\})?", a)
+            if not mm:
+                raise KeyError(f"fuel arm pattern depends on more than the instruction kind: `{a}`")
+            rows.append((mm.group(1), cfg, int(val)))
+    if not rows:
+        raise KeyError("no explicit fuel arms")
+    lean = ("def fuelCostArms : List (String × String × Nat) := ["
+            + ", ".join(f"({lean_str(n)}, {lean_str(c)}, {v})" for n, c, v in rows) + "]")
+    return rows, lean
+
+
+# ------------------------------------------------------------------------------------------------
+# every place that creates, replaces, clones or restores a FuelTracker or a whole State
+_SITE_TOKENS = [
+    ("State-literal", r"(?<![\w:])State\s*\{"),
+    ("State::new()", r"\bState::new\("),
+    ("State::new_for_env()", r"\bState::new_for_env\("),
+    ("vm::eval()", r"\bvm::eval\("),
+    ("Executor::eval()", r"\bExecutor::eval\("),
+    ("Self::eval()", r"\bSelf::eval\("),
+    ("FuelTracker-literal", r"(?<![\w:])FuelTracker\s*\{"),
+    ("FuelTracker::new", r"\bFuelTracker::new\b"),
+    ("fuel_tracker:assign", r"\bfuel_tracker\s*=[^=]"),
+    ("fuel_tracker:field-init", r"\bfuel_tracker\s*:(?!:)"),
+    ("fuel_tracker:method", r"\bfuel_tracker\s*\.\s*(\w+)\s*\("),
+    ("fuel_tracker:mut-borrow", r"(?:&\s*mut\s+[\w.]*\bfuel_tracker\b|ref\s+mut\s+\w+\s*\)\s*=\s*[\w.]*\bfuel_tracker\b)"),
+    ("fuel_tracker:mem", r"\bmem::(?:replace|take|swap)\s*\([^;]*\bfuel_tracker\b"),
+    ("state:overwrite", r"\*\s*(?:state|self)\s*=[^=]"),
+    ("state:mem", r"\bmem::(?:replace|take|swap)\s*\(\s*(?:&\s*mut\s+\*?)?(?:state|self)\s*[,)]"),
+]
+
+
+@item("C13_TRACKER_SITES")
+def _tracker_sites(repo):
+    files = sorted(glob.glob(os.path.join(repo, "minijinja/src/**/*.rs"), recursive=True)
+                   + glob.glob(os.path.join(repo, "minijinja-contrib/src/**/*.rs"), recursive=True))
+    rows = []
+    for path in files:
+        rel = os.path.relpath(path, repo).replace("minijinja/src/", "")
+        src = _strip_comments(open(path, encoding="utf-8").read())
+        lines = src.split("\n")
+        for idx, line in enumerate(lines):
+            if re.match(r"\s*#\[", line):
+                continue
+            for name, rx in _SITE_TOKENS:
+                for m in re.finditer(rx, line):
+                    if name == "State-literal" and re.search(r"\b(struct|impl|enum|trait|for|->)\s+$", line[:m.start()] + " "):
+                        continue
+                    if name == "FuelTracker-literal" and re.search(r"(\b(struct|impl|for)|->)\s+$", line[:m.start()] + " "):
+                        continue
+                    what = name + (":" + m.group(1) if name == "fuel_tracker:method" else "")
+                    rows.append((rel, _enclosing(lines, idx), what))
+        # the derives and manual Clone/Copy of the tracker and the state
+        for ty in ("FuelTracker", "State"):
+            for m in re.finditer(r"((?:\s*#\[[^\]]*\]\s*\n)*)\s*pub(?:\([^)]*\))?\s+struct\s+%s\b" % ty, src):
+                ders = re.findall(r"derive\(([^)]*)\)", m.group(1))
+                names = sorted(x.strip() for d in ders for x in d.split(",") if x.strip())
+                rows.append((rel, "struct " + ty, "derive:" + ("+".join(names) if names else "none")))
+            for m in re.finditer(r"\bimpl(?:<[^>]*>)?\s+(Clone|Copy|Default)\s+for\s+%s\b" % ty, src):
+                rows.append((rel, "struct " + ty, "impl:" + m.group(1)))
+    if not any(r[2] == "FuelTracker::new" for r in rows):
+        raise KeyError("no FuelTracker::new site found")
+    rows.sort()
+    lean = ("def trackerSites : List (String × String × String) := [\n  "
+            + ",\n  ".join(f"({lean_str(a)}, {lean_str(b)}, {lean_str(c)})" for a, b, c in rows) + "]")
+    return rows, lean
+
+
+# ------------------------------------------------------------------------------------------------
+# the functions through which a nested evaluation is entered: how they get the State, whether they
+# create anything, and whom they call
+_NESTED = [
+    ("State::render_block", "minijinja/src/vm/state.rs", r"pub fn render_block\s*\("),
+    ("State::render_block_to_write", "minijinja/src/vm/state.rs", r"pub fn render_block_to_write\s*<"),
+    ("State::call_macro", "minijinja/src/vm/state.rs", r"pub fn call_macro\s*\("),
+    ("State::apply_filter", "minijinja/src/vm/state.rs", r"pub fn apply_filter\s*\("),
+    ("State::perform_test", "minijinja/src/vm/state.rs", r"pub fn perform_test\s*\("),
+    ("State::format", "minijinja/src/vm/state.rs", r"pub fn format\s*\("),
+    ("State::with_execution_state", "minijinja/src/vm/state.rs", r"pub\(crate\) fn with_execution_state\s*<"),
+    ("State::with_auto_escape", "minijinja/src/vm/state.rs", r"pub\(crate\) fn with_auto_escape\s*<"),
+    ("Captured::with_state_mut", "minijinja/src/template.rs", r"pub fn with_state_mut\s*<"),
+    ("vm::call_block", "minijinja/src/vm/mod.rs", r"pub\(crate\) fn call_block\s*<'env>"),
+    ("vm::eval_macro", "minijinja/src/vm/mod.rs", r"pub\(crate\) fn eval_macro\s*<'env, 'template>"),
+    ("Executor::eval_macro", "minijinja/src/vm/mod.rs", r"pub\(crate\) fn eval_macro\s*<'template>"),
+    ("Executor::eval_state", "minijinja/src/vm/mod.rs", r"fn eval_state\s*\("),
+    ("Executor::do_eval", "minijinja/src/vm/mod.rs", r"fn do_eval\s*\("),
+    ("Executor::eval_impl", "minijinja/src/vm/mod.rs", r"fn eval_impl\s*\("),
+    ("Executor::perform_include", "minijinja/src/vm/mod.rs", r"fn perform_include\s*\("),
+    ("Executor::perform_super", "minijinja/src/vm/mod.rs", r"fn perform_super\s*\("),
+    ("Executor::call_block", "minijinja/src/vm/mod.rs", r"pub\(crate\) fn call_block\s*\("),
+    ("Macro::call", "minijinja/src/vm/macro_object.rs", r"fn call\s*\(\s*self: &Arc<Self>"),
+    ("Value::call", "minijinja/src/value/mod.rs", r"pub fn call\s*\(\s*&self"),
+    ("Value::call_method", "minijinja/src/value/mod.rs", r"pub fn call_method\s*\("),
+    ("Environment::format", "minijinja/src/environment.rs", r"pub\(crate\) fn format\s*\("),
+]
+_NESTED_CALLEES = [
+    (r"\bvm::call_block\(", "vm::call_block"), (r"\bExecutor::call_block\(", "Executor::call_block"),
+    (r"\bSelf::call_block\(", "Executor::call_block"), (r"\bvm::eval_macro\(", "vm::eval_macro"),
+    (r"\bExecutor::eval_macro\(", "Executor::eval_macro"), (r"\bSelf::eval_state\(", "Executor::eval_state"),
+    (r"\bSelf::do_eval\(", "Executor::do_eval"), (r"\bSelf::eval_impl\(", "Executor::eval_impl"),
+    (r"\bSelf::perform_include\(", "Executor::perform_include"), (r"\bSelf::perform_super\(", "Executor::perform_super"),
+    (r"\.with_execution_state\(", "State::with_execution_state"), (r"\.with_auto_escape\(", "State::with_auto_escape"),
+    (r"\b\w+\.call\(\s*(?:self|state)\b", "callable::call"), (r"\.call_method\(\s*(?:self|state)\b", "callable::call_method"),
+    (r"\.format\(\s*&?\w+\s*,\s*(?:self|state)\b", "Environment::format"), (r"\(self\.formatter\)\(", "formatter callback"),
+    (r"\bf\(\s*(?:self|&mut dependent\.state)\s*\)", "closure(state)"),
+]
+_CREATION = [r"(?<![\w:])State\s*\{", r"\bState::new(?:_for_env)?\(", r"\bvm::eval\(", r"\bExecutor::eval\(", r"\bSelf::eval\(",
+             r"\bFuelTracker\b", r"\bfuel_tracker\s*=[^=]", r"\bmem::(?:replace|take|swap)\s*\([^;]*\bfuel_tracker\b",
+             r"\bfuel_tracker\s*\.\s*(?:take|replace|insert|clone|get_or_insert\w*)\s*\(", r"\*\s*(?:state|self)\s*=[^=]",
+             r"\.empty_state\(", r"\.new_state\(", r"\.render(?:_captured(?:_to)?|_str|_named_str)?\(", r"\.eval\("]
+
+
+@item("C13_NESTED_FNS")
+def _nested_fns(repo):
+    rows = []
+    for label, rel, header in _NESTED:
+        src = _strip_comments(read(repo, rel))
+        ms = list(re.finditer(header, src))
+        if len(ms) != 1:
+            raise KeyError(f"nested-evaluation function {label}: expected one definition in {rel}, found {len(ms)}")
+        start = ms[0].start()
+        # signature = up to the opening brace of the body (skip braces inside generics/where clauses: none here)
+        body_open = src.index("{", re.search(r"\)\s*(?:->\s*[^{;]+?)?(?:\s*where[^{]*)?\{", src[start:]).end() - 1 + start)
+        sig = " ".join(src[start:body_open].split())
+        body = fn_body(src[start:], r"\)\s*(?:->\s*[^{;]+?)?(?:\s*where[^{]*)?\{")
+        if re.search(r"&mut self\b", sig) or re.search(r"\b(?:state|_state)\s*:\s*&mut State\b", sig):
+            how = "&mut"
+        elif re.search(r"\b(?:state|_state)\s*:\s*&State\b", sig) or re.search(r"&self\b", sig) and label.startswith("State::"):
+            how = "&"
+        elif label == "Captured::with_state_mut" and re.search(r"FnOnce\(&mut State<", sig):
+            how = "&mut"
+        else:
+            how = "other:" + sig[:60]
+        creates = sorted({re.sub(r"\\[bsw]|\(\?[^)]*\)|[\\()\[\]?*+^]", "", rx)[:24] for rx in _CREATION if re.search(rx, body)})
+        touches = "fuel_tracker" if re.search(r"\bfuel_tracker\b", body) else ""
+        callees = sorted({c for rx, c in _NESTED_CALLEES if re.search(rx, body)})
+        rows.append((label, how, "+".join(creates), touches, callees))
+    lean = ("def nestedFns : List (String × String × String × String × List String) := [\n  "
+            + ",\n  ".join(f"({lean_str(a)}, {lean_str(b)}, {lean_str(c)}, {lean_str(d)}, [" + ", ".join(lean_str(x) for x in e) + "])"
+                           for a, b, c, d, e in rows) + "]")
+    return rows, lean
